@@ -246,6 +246,7 @@ class Sim:
         """Execute one event against naunet and the model, then check every live network."""
         self.step += 1
         kind = op["op"]
+        self.ops_done = getattr(self, "ops_done", [])
         self.stats["ops"][kind] = self.stats["ops"].get(kind, 0) + 1
         n = op.get("net")
         outcome = "ok"
@@ -262,6 +263,7 @@ class Sim:
             tb = "".join(traceback.format_exc().splitlines(True)[-4:])
             raise Violation("op-raised", f"{kind} on net {n} raised {type(e).__name__}: {e}\n{tb}")
         self.log.add(self.step, kind, n, outcome)
+        self.ops_done.append(op)
         try:
             with seams.quiet():
                 self.check_all(touched=n, relaxed=relaxed)
@@ -483,6 +485,33 @@ class Sim:
             net.remove_reaction(list(dupidx))
             mod.remove_indices(list(dupidx))
             return f"ok:{len(dupidx)}", False
+        if kind == "repickle":
+            # a session continued from a file: ANOTHER interpreter (another string-hash salt) builds the
+            # same network by the same history, pickles it, and this process goes on with the loaded
+            # object.  Nothing about a network may depend on the process that built it.  (Whether
+            # pickling works at all is not C14's business: the op is skipped if it does not.)
+            import pickle
+            import subprocess
+            import sys as _sys
+
+            job = json.dumps({"world": self.world, "ops": [o for o in self.ops_done if o["op"] != "repickle"], "net": n,
+                              "rundir": self.rundir + "-pk"})
+            code = "import sys;sys.path.insert(0,%r);from sim import c14;c14._repickle_child()" % K.VERIF
+            try:
+                pr = subprocess.run([_sys.executable, "-c", code], input=job.encode(), capture_output=True, timeout=300,
+                                    env=dict(os.environ, PYTHONHASHSEED=str(op["hashseed"]), NAUNET_REPO=K.REPO))
+                if pr.returncode != 0 or not pr.stdout:
+                    return "skipped", False
+                restored = pickle.loads(pr.stdout)
+            except (pickle.PickleError, AttributeError, TypeError, EOFError, subprocess.TimeoutExpired):
+                return "skipped", False
+            objs = list(restored.reaction_list) + list(getattr(restored, "_skipped_reactions", []))
+            byalpha = {float(r.alpha): r for r in objs}
+            self.inst[n] = {u: byalpha[u + 0.5] for u in self.inst[n] if (u + 0.5) in byalpha}
+            self.bound[n] = {}
+            self.alive.append(net)
+            self.nets[n] = restored
+            return "ok", False
         if kind == "reindex":
             net.reindex()
             got = [r.idxfromfile for r in net.reaction_list]
@@ -570,7 +599,7 @@ def gen_world(rng, tier):
     else:
         length = min(60, int(5 + rng.expovariate(1 / 14.0)))
     return {"nets": nets, "foreign": foreign, "weights": weights, "faults": faults, "length": length,
-            "burst": rng.choice([0.0, 0.5, 0.85])}
+            "burst": rng.choice([0.0, 0.5, 0.85]), "repickle": rng.random() < 0.06}
 
 
 def gen_pool_sub(rng, cfgname, alphabet, size, uid0):
@@ -622,6 +651,8 @@ def gen_op(rng, world, sim, n):
     spec = world["nets"][n]
     mod = sim.models[n]
     cfgname = spec["cfg"]
+    if world.get("repickle") and rng.random() < 0.05 and not any("sibling_of" in x or x.get("has_sibling") is not None for x in world["nets"]):
+        return {"op": "repickle", "net": n, "hashseed": rng.randrange(1, 1000000)}
     unused = [ar for ar in spec["pool"] if ar["uid"] not in sim.how[n]]
     w = dict(world["weights"])
     if not unused:
@@ -745,6 +776,24 @@ def run_ops(world, ops, rundir):
         except Exception as e:
             raise K.HarnessError(f"simulator code failed around {op['op']}: {type(e).__name__}: {e}\n{traceback.format_exc()}")
     return sim, None, None
+
+
+def _repickle_child():
+    """Entry point of the helper interpreter of the `repickle` op: replay the history, pickle one network."""
+    import pickle
+    import sys as _sys
+
+    job = json.loads(_sys.stdin.buffer.read().decode())
+    sim = Sim(job["world"], job["rundir"])
+    for op in job["ops"]:
+        try:
+            sim.apply(op)
+        except Violation:
+            pass  # the parent judges; here only the object matters
+    out = pickle.dumps(sim.nets[job["net"]])
+    _sys.stdout.buffer.write(out)
+    _sys.stdout.buffer.flush()
+    shutil.rmtree(job["rundir"], ignore_errors=True)
 
 
 def _run_ops_child(world, ops, rundir):
